@@ -472,7 +472,11 @@ class Project(MessageHandler):
             # Implicit milestone: has start/end but no duration metrics
             is_implicit_milestone = (start or end) and effort == 0 and duration == 0 and length == 0
 
-            if is_explicit_milestone or is_implicit_milestone:
+            # Dates outside the project window are left to the main loop, which reports the
+            # task as not schedulable
+            outside = any(d and (d < self.attributes["start"] or d > self.attributes["end"]) for d in (start, end))
+
+            if (is_explicit_milestone or is_implicit_milestone) and not outside:
                 # Only mark as scheduled if we can set both dates
                 # Milestones with dependencies but no dates need to go through normal scheduling
                 if start and not end:
